@@ -42,6 +42,106 @@ type driver struct {
 
 func (d *driver) pick(xs []string) string { return xs[d.r.Intn(len(xs))] }
 
+func sortedKeys(m M) []string {
+	ks := make([]string, 0, len(m))
+	for k := range m {
+		ks = append(ks, k)
+	}
+	sort.Strings(ks)
+	return ks
+}
+
+func (d *driver) table(name string) M {
+	if d.w.view == nil {
+		return M{}
+	}
+	t, _ := d.w.view[name].(M)
+	if t == nil {
+		return M{}
+	}
+	return t
+}
+
+// a promise id: mostly one that exists (pending ones preferred when wantPending)
+func (d *driver) promiseId(wantPending bool) string {
+	ps := d.table("promises")
+	if len(ps) > 0 && d.r.Intn(10) < 7 {
+		ids := sortedKeys(ps)
+		if wantPending {
+			pend := []string{}
+			for _, id := range ids {
+				if ps[id].(M)["state"] == "PENDING" {
+					pend = append(pend, id)
+				}
+			}
+			if len(pend) > 0 && d.r.Intn(10) < 8 {
+				return d.pick(pend)
+			}
+		}
+		return d.pick(ids)
+	}
+	return d.pick(d.pids)
+}
+
+// a task id and counter: mostly an existing task with its current counter
+func (d *driver) taskRef(states ...string) (string, int) {
+	ts := d.table("tasks")
+	if len(ts) > 0 && d.r.Intn(10) < 8 {
+		ids := sortedKeys(ts)
+		cand := []string{}
+		for _, id := range ids {
+			st := ts[id].(M)["state"].(string)
+			for _, s := range states {
+				if s == st {
+					cand = append(cand, id)
+				}
+			}
+		}
+		if len(cand) == 0 || d.r.Intn(10) < 2 {
+			cand = ids
+		}
+		id := d.pick(cand)
+		c := int(ts[id].(M)["counter"].(int64))
+		switch d.r.Intn(10) {
+		case 0:
+			c--
+		case 1:
+			c++
+		}
+		return id, c
+	}
+	return d.taskId(), []int{1, 1, 1, 2, 2, 3, 0}[d.r.Intn(7)]
+}
+
+// refresh the interesting instants from what is stored: pending deadlines, lease ends,
+// lock expiries, schedule occurrences
+func (d *driver) refreshInstants() {
+	now := d.w.now
+	add := func(t int64) {
+		if t+1 >= now && t < now+4000 {
+			d.instants = append(d.instants, t)
+		}
+	}
+	for _, v := range d.table("promises") {
+		if p := v.(M); p["state"] == "PENDING" {
+			add(p["timeout"].(int64))
+		}
+	}
+	for _, v := range d.table("tasks") {
+		t := v.(M)
+		if t["state"] == "ENQUEUED" || t["state"] == "CLAIMED" {
+			add(t["expiresAt"].(int64))
+			add(t["timeout"].(int64))
+		}
+	}
+	for _, v := range d.table("locks") {
+		add(v.(M)["expiresAt"].(int64))
+	}
+	for _, v := range d.table("schedules") {
+		add(v.(M)["next"].(int64))
+	}
+}
+
 func (d *driver) key() *idempotency.Key {
 	switch d.r.Intn(4) {
 	case 0:
@@ -69,21 +169,23 @@ func (d *driver) value() promise.Value {
 func (d *driver) timeout() int64 {
 	now := d.w.now
 	var t int64
-	switch d.r.Intn(8) {
+	switch d.r.Intn(12) {
 	case 0:
 		t = now - 1
 	case 1:
 		t = now
 	case 2:
 		t = now + 1
-	case 3:
+	case 3, 4:
 		t = now + 2
-	case 4:
+	case 5, 6:
 		t = now + 3
-	case 5:
-		t = now + 5
-	case 6:
-		t = now + 8
+	case 7:
+		t = now + 4
+	case 8:
+		t = now + 6
+	case 9:
+		t = now + 9
 	default:
 		t = now + 1000000
 	}
@@ -156,7 +258,7 @@ func (d *driver) gen() *t_api.Request {
 	}
 	switch kind {
 	case "ReadPromise":
-		return &t_api.Request{Kind: t_api.ReadPromise, ReadPromise: &t_api.ReadPromiseRequest{Id: d.pick(d.pids)}}
+		return &t_api.Request{Kind: t_api.ReadPromise, ReadPromise: &t_api.ReadPromiseRequest{Id: d.promiseId(true)}}
 	case "CreatePromise":
 		return &t_api.Request{Kind: t_api.CreatePromise, CreatePromise: d.createReq()}
 	case "CreatePromiseAndTask":
@@ -173,22 +275,23 @@ func (d *driver) gen() *t_api.Request {
 			Promise: c, Task: &t_api.CreateTaskRequest{PromiseId: c.Id, ProcessId: d.pick([]string{"w1", "w2"}), Ttl: ttl, Timeout: c.Timeout}}}
 	case "CompletePromise":
 		return &t_api.Request{Kind: t_api.CompletePromise, CompletePromise: &t_api.CompletePromiseRequest{
-			Id: d.pick(d.pids), IdempotencyKey: d.key(), Strict: d.r.Intn(3) == 0, State: d.states(), Value: d.value()}}
+			Id: d.promiseId(true), IdempotencyKey: d.key(), Strict: d.r.Intn(3) == 0, State: d.states(), Value: d.value()}}
 	case "CreateCallback":
-		leaf, root := d.pick(d.pids), d.pick(d.pids)
+		leaf, root := d.promiseId(true), d.pick(d.pids)
 		return &t_api.Request{Kind: t_api.CreateCallback, CreateCallback: &t_api.CreateCallbackRequest{
 			Id: "", PromiseId: leaf, RootPromiseId: root, Timeout: d.timeout(), Recv: d.recv()}}
 	case "CreateSubscription":
 		return &t_api.Request{Kind: t_api.CreateSubscription, CreateSubscription: &t_api.CreateSubscriptionRequest{
-			Id: d.pick(d.subs), PromiseId: d.pick(d.pids), Timeout: d.timeout(), Recv: d.recv()}}
+			Id: d.pick(d.subs), PromiseId: d.promiseId(true), Timeout: d.timeout(), Recv: d.recv()}}
 	case "ClaimTask":
 		ttl := d.ttl()
 		d.instants = append(d.instants, d.w.now+int64(ttl))
+		tid, tc := d.taskRef("INIT", "ENQUEUED")
 		return &t_api.Request{Kind: t_api.ClaimTask, ClaimTask: &t_api.ClaimTaskRequest{
-			Id: d.taskId(), Counter: []int{1, 1, 1, 2, 2, 3, 0}[d.r.Intn(7)], ProcessId: d.pick([]string{"w1", "w2"}), Ttl: ttl}}
+			Id: tid, Counter: tc, ProcessId: d.pick([]string{"w1", "w2"}), Ttl: ttl}}
 	case "CompleteTask":
-		return &t_api.Request{Kind: t_api.CompleteTask, CompleteTask: &t_api.CompleteTaskRequest{
-			Id: d.taskId(), Counter: []int{1, 1, 1, 2, 2, 3, 0}[d.r.Intn(7)]}}
+		tid, tc := d.taskRef("CLAIMED")
+		return &t_api.Request{Kind: t_api.CompleteTask, CompleteTask: &t_api.CompleteTaskRequest{Id: tid, Counter: tc}}
 	case "HeartbeatTasks":
 		return &t_api.Request{Kind: t_api.HeartbeatTasks, HeartbeatTasks: &t_api.HeartbeatTasksRequest{ProcessId: d.pick([]string{"w1", "w2"})}}
 	case "AcquireLock":
@@ -224,6 +327,7 @@ func (d *driver) gen() *t_api.Request {
 // advance moves the clock: mostly by small steps, often onto / next to a recorded
 // deadline or lease end (before, exactly at, after), sometimes by a jump.
 func (d *driver) advance() {
+	d.refreshInstants()
 	now := d.w.now
 	switch x := d.r.Intn(10); {
 	case x < 2:
